@@ -133,3 +133,44 @@ def record_lattice(spec):
         ev.append(event("single", r, 0, c2))
     return {"meta": dict(spec), "c": {"x": [int(v) for v in x], "y": [int(v) for v in y], "win": win_id, "order": order,
                                        "mode": mode, "N": N}, "ev": ev}
+
+
+def record_band(spec):
+    """Band-restricted vs unrestricted analyses of a real record, with and without a forced bin count."""
+    import speckit
+    from speckit import schedulers
+    rng = np.random.default_rng(spec["seed"])
+    N = spec["N"]
+    x = rng.standard_normal(N)
+    y = 0.4 * x + rng.standard_normal(N)
+    data = x if spec["mode"] == "auto" else np.vstack([x, y])
+    fs = 2.0
+    ev = []
+    for force in (False, True):
+        kw = dict(scheduler=spec["sched"], order=spec["order"], backend=spec["backend"], olap=0.5, Kdes=spec["Kdes"], Lmin=spec["Lmin"])
+        if force:
+            fn = {"ltf": schedulers.ltf_plan, "lpsd": schedulers.lpsd_plan, "vectorized_ltf": schedulers.vectorized_ltf_plan}[spec["sched"]]
+            target = int(fn(N=N, fs=fs, olap=0.5, bmin=1.0, Lmin=spec["Lmin"], Jdes=160, Kdes=spec["Kdes"])["nf"])
+            kw.update(Jdes=target, force_target_nf=True)
+        else:
+            kw.update(Jdes=spec["Jdes"])
+        full = speckit.compute_spectrum(data, fs, **kw)
+        f = np.asarray(full.f)
+        for (lo, hi) in spec["bands"]:
+            lo_, hi_ = (float(f[lo]), float(f[hi])) if isinstance(lo, int) else (lo, hi)     # index pairs: edges exactly on plan frequencies
+            m = (f >= lo_) & (f <= hi_)
+            raised, nb, same = 0, 0, 0
+            try:
+                r = speckit.compute_spectrum(data, fs, band=(lo_, hi_), **kw)
+                nb = int(r.nf)
+                if nb == int(m.sum()):
+                    same = 1
+                    for k in ("f", "r", "b", "L", "K", "navg", "O", "XX", "YY", "XY", "S12", "S2", "M2"):
+                        if np.asarray(getattr(r, k)).tobytes() != np.asarray(getattr(full, k))[m].tobytes():
+                            same = 0
+                    if not all(np.array_equal(a, b) for a, b in zip(r.D, [d for d, keep in zip(full.D, m) if keep])):
+                        same = 0
+            except ValueError:
+                raised = 1
+            ev.append({"nb": nb, "ni": int(m.sum()), "same": same, "raised": raised, "force": int(force)})
+    return {"meta": dict(spec), "c": {}, "ev": ev}
